@@ -5,7 +5,7 @@ tier=${1:-quick}; shift
 ids=${@:-C01 C02 C03 C04 C05 C06 C07 C08 C09 C10 C11 C12 C13 C14 C15 C16 C17 C18 C19 C20}
 out=$(mktemp -d /tmp/runall.XXXX)
 [ -n "$KEEP" ] || export VERIF_OUT=$out
-printf '%s\n' $ids | xargs -P 5 -I{} sh -c "s=\$(date +%s); ./check {} --tier $tier > $out/{}.log 2>&1; echo \"{} exit=\$? \$(( \$(date +%s) - s ))s \$(grep -c '^VIOLATION' $out/{}.log) viol\" >> $out/summary"
+printf '%s\n' $ids | xargs -P ${PAR:-5} -I{} sh -c "s=\$(date +%s); ./check {} --tier $tier > $out/{}.log 2>&1; echo \"{} exit=\$? \$(( \$(date +%s) - s ))s \$(grep -c '^VIOLATION' $out/{}.log) viol\" >> $out/summary"
 sort $out/summary
 grep -h -A1 '^VIOLATION\|MACHINERY' $out/*.log | cut -c1-400 | head -40
 [ -n "$KEEP" ] && rm -rf $out || echo "logs: $out"
